@@ -142,6 +142,7 @@ theorem step_ext (rest : Bytes) (g : G) (hb : g.Bounded) (o : Op) (ho : o.isWind
     exact ⟨by simp [liftExt], fun r g' h => by simp at h; rw [← h.2]; exact hb⟩
   | capBegin => exact absurd ho (by simp [Op.isWindow])
   | capEnd => exact absurd ho (by simp [Op.isWindow])
+  | getPos => exact absurd ho (by simp [Op.isWindow])
 
 /-- **Isolation**: any closure made of window operations, run under a limit inside the data,
     behaves identically whatever follows the window, and leaves it untouched. -/
@@ -258,6 +259,7 @@ theorem step_consumed (g : G) (o : Op) (ho : o.notCap) (r : Resp) (g' : G) (h : 
   | reqCapped n => simp [stepG] at h; rw [← h.2]; exact ⟨0, same _⟩
   | capBegin => exact absurd ho (by simp [Op.notCap])
   | capEnd => exact absurd ho (by simp [Op.notCap])
+  | getPos => simp [stepG] at h; rw [← h.2]; exact ⟨0, Consumed.refl g⟩
 
 /-- a capture-free program only ever moves forward, and an open capture frame accumulates exactly
     the octets it moved over -/
@@ -344,6 +346,7 @@ theorem step_window_limit (g : G) (o : Op) (ho : o.isWindow) (l : Nat) (hl : g.l
   | reqCapped n => simp [stepG] at h; rw [← h.2]; exact ⟨0, same _, by omega, by simp [G.request, hl]⟩
   | capBegin => exact absurd ho (by simp [Op.isWindow])
   | capEnd => exact absurd ho (by simp [Op.isWindow])
+  | getPos => exact absurd ho (by simp [Op.isWindow])
 
 /-- a closure on a window moves forward by some `k ≤ limit` octets and leaves the limit at
     `limit - k` -/
